@@ -21,6 +21,7 @@ const (
 
 var (
 	errSchemaHasNoRoot                = errors.New("schema has no root")
+	errNullSchema                     = errors.New("schema is null")
 	errArrayPropertyItems             = errors.New("array property must have 'items' set to a type")
 	errEnumArrCannotBeEmpty           = errors.New("enum array cannot be empty")
 	errEnumNonPrimitiveVal            = errors.New("enum has non-primitive value")
